@@ -47,6 +47,7 @@ type repoUnderTest struct {
 	clk     *vclock.Clock
 	nextId  string
 	closeFn func()
+	lastArg *def.TaskUpdateParam // the parameter value actually handed to the repository by the last call
 }
 
 func newRepoUnderTest(impl string, scratch string) (*repoUnderTest, error) {
@@ -130,6 +131,7 @@ func (u *repoUnderTest) applyOp(tok []string) (resp string, returned []def.Task)
 		if err != nil {
 			return "err parse", nil
 		}
+		u.lastArg = &p
 		t, err := u.repo.AddTask(ctxOf(tok[1]), p)
 		if err != nil {
 			return proto.Res(err), nil
@@ -147,6 +149,7 @@ func (u *repoUnderTest) applyOp(tok []string) (resp string, returned []def.Task)
 		if err != nil {
 			return "err parse", nil
 		}
+		u.lastArg = &p
 		return proto.Res(u.repo.UpdateById(ctxOf(tok[1]), unId(tok[3]), p)), nil
 	case "can":
 		setNow(tok[2])
@@ -224,6 +227,41 @@ func (u *repoUnderTest) heapLine() string {
 	return b.String()
 }
 
+// scribble overwrites every map it is given: inserts a key, changes every value, deletes one key.
+func scribble(ms ...map[string]string) int {
+	n := 0
+	for _, m := range ms {
+		if m == nil {
+			continue
+		}
+		n++
+		var first string
+		for k := range m {
+			if first == "" || k < first {
+				first = k
+			}
+			m[k] = m[k] + "#scribbled"
+		}
+		if first != "" && len(m) > 1 {
+			delete(m, first)
+		}
+		m["scribbled-by-client"] = "1"
+	}
+	return n
+}
+
+func scribbleTasks(ts []def.Task) int {
+	n := 0
+	for i := range ts {
+		n += scribble(ts[i].Param, ts[i].Meta)
+	}
+	return n
+}
+
+func scribbleParam(p def.TaskUpdateParam) int {
+	return scribble(p.Param.Value(), p.Meta.Value())
+}
+
 // repoExec executes histories of the repo family. Header: "new <impl>".
 // Besides the repository operations it understands
 //
@@ -231,7 +269,10 @@ func (u *repoUnderTest) heapLine() string {
 //	lod <mode>     load the kept snapshot (mode raw|json) into a fresh repository and continue in lock-step
 //	lodbad <k>     load a snapshot whose k-th task (mod n) is made invalid; must be refused without effect
 type repoExec struct {
-	scratch string
+	// scribble: after every call overwrite every map reachable from its arguments and results (C19)
+	scribble  bool
+	scribbled int
+	scratch   string
 	// lastDump is updated after every op: the online generators read it.
 	lastDump []def.Task
 }
@@ -285,6 +326,19 @@ func (e *repoExec) execWith(h sim.History, next func(dump []def.Task, issued []s
 		case "sav":
 			if u.mem != nil {
 				snap = u.mem.Save()
+				if e.scribble {
+					// keep a private deep copy for loading; scribble over what Save handed out
+					priv := make([]inmemory.KeyValue, len(snap))
+					for i, kv := range snap {
+						priv[i] = inmemory.KeyValue{Key: kv.Key, Value: kv.Value.Clone()}
+					}
+					before := proto.Tasks(u.dump(issued))
+					e.scribbled += scribbleTasks(kvTasks(snap))
+					if after := proto.Tasks(u.dump(issued)); after != before {
+						out = append(out, "mismatch C19 scribbling over the snapshot returned by Save changed the store")
+					}
+					snap = priv
+				}
 			}
 			out = append(out, "sav -> ok")
 			continue
@@ -306,6 +360,15 @@ func (e *repoExec) execWith(h sim.History, next func(dump []def.Task, issued []s
 				}
 			}
 			fresh, _ := newRepoUnderTest("mem", e.scratch)
+			if e.scribble && len(tok) > 1 && tok[1] != "json" {
+				// hand Load a copy that is scribbled over afterwards
+				cp := make([]inmemory.KeyValue, len(kv))
+				for i, p := range kv {
+					cp[i] = inmemory.KeyValue{Key: p.Key, Value: p.Value.Clone()}
+				}
+				kv = cp
+				defer func(kv []inmemory.KeyValue) { e.scribbled += scribbleTasks(kvTasks(kv)) }(kv)
+			}
 			lerr := fresh.mem.Load(kv)
 			// the model must be told what was loaded: the snapshot, not the current state
 			out = append(out, "lod -> "+proto.Res(lerr)+" "+proto.Tasks(kvTasks(snap)))
@@ -353,8 +416,33 @@ func (e *repoExec) execWith(h sim.History, next func(dump []def.Task, issued []s
 			lerr := u.mem.Load(bad)
 			out = append(out, "lodbad -> "+proto.Res(lerr))
 		default:
+			u.lastArg = nil
 			resp, returned := u.applyOp(tok)
 			out = append(out, line+" -> "+resp)
+			if e.scribble {
+				// what the store holds must not depend on what the client does with its own values afterwards
+				before := proto.Tasks(u.dump(issued))
+				hb := ""
+				if u.mem != nil {
+					hb = u.heapLine()
+				}
+				if u.lastArg != nil {
+					e.scribbled += scribbleParam(*u.lastArg)
+				}
+				e.scribbled += scribbleTasks(returned)
+				if tok[0] == "add" && strings.HasPrefix(resp, "ok") {
+					id, _ := proto.UnStr(tok[3])
+					before = proto.Tasks(u.dump(append(append([]string(nil), issued...), id)))
+					if after := proto.Tasks(u.dump(append(append([]string(nil), issued...), id))); after != before {
+						out = append(out, "mismatch C19 scribbling over the argument/result of "+tok[0]+" changed the store: "+proto.Str(after))
+					}
+				} else if after := proto.Tasks(u.dump(issued)); after != before {
+					out = append(out, "mismatch C19 scribbling over the argument/result of "+tok[0]+" changed the store: "+proto.Str(after))
+				}
+				if u.mem != nil && u.heapLine() != hb {
+					out = append(out, "mismatch C19 scribbling changed the heap order")
+				}
+			}
 			for _, t := range returned {
 				if f := proto.NonUTC(t); len(f) > 0 {
 					out = append(out, "mismatch C12 non-UTC "+proto.Str(t.Id)+" "+strings.Join(f, ","))
@@ -755,13 +843,15 @@ func cmdRepo(args []string) {
 	avoid := fs.String("avoid", "", "comma-separated triggers of known findings to stay away from")
 	adversarial := fs.Bool("adversarial", false, "adversarial string alphabet for map keys/values")
 	findHeavy := fs.Bool("findheavy", false, "mostly Find operations")
+	scrib := fs.Bool("scribble", false, "after every call overwrite every map reachable from arguments and results (C19)")
 	fs.Parse(args)
 	os.MkdirAll(c.scratch, 0o755)
 
 	rep := &Report{Family: "repo", Seed: c.seed, Dist: map[string]int{},
 		Config: map[string]string{"impl": *impl, "profile": *profile, "len": strconv.Itoa(c.length),
 			"avoid": *avoid, "adversarial": strconv.FormatBool(*adversarial)}}
-	ex := func(h sim.History) []string { return (&repoExec{scratch: c.scratch}).Exec(h) }
+	ex := func(h sim.History) []string { return (&repoExec{scratch: c.scratch, scribble: *scrib}).Exec(h) }
+	var scribbledTotal atomic.Int64
 
 	var hists []sim.History
 	var traces [][]string
@@ -781,7 +871,8 @@ func cmdRepo(args []string) {
 					g.avoid[a] = true
 				}
 			}
-			e := &repoExec{scratch: c.scratch}
+			e := &repoExec{scratch: c.scratch, scribble: *scrib}
+			defer func() { scribbledTotal.Add(int64(e.scribbled)) }()
 			h := sim.History{Header: "new " + *impl}
 			count := 0
 			snapAt := -1
@@ -825,6 +916,7 @@ func cmdRepo(args []string) {
 	for i := 0; i < len(hists) && i < 2; i++ {
 		rep.Samples = append(rep.Samples, hists[i])
 	}
+	rep.Dist["maps_scribbled"] = int(scribbledTotal.Load())
 	analyse(&c, "repo", hists, traces, ex, rep)
 	writeReport(&c, rep)
 }
